@@ -108,6 +108,14 @@ def method(ex, st, recv, name, args, kwargs, node):
                 st.ghost['draws'] = st.ghost.get('draws', 0) + 1
                 return out
             raise Unsupported('Generator.choice calling pattern')
+        if name == 'integers' and len(args) == 3 and not kwargs:
+            lo, hi, s = [Z(ex.need_num(st, a, node)) for a in args]
+            used('Generator.integers(lo, hi, s) -> s integers in [lo, hi), drawn WITH replacement (values may repeat); requires lo < hi, s >= 0')
+            ex.oblige(st, 'call-pre', 'integers-needs-a-non-empty-range-and-a-non-negative-size', z3.And(lo < hi, s >= 0), node)
+            out, arr = ivec(ex, st, s, 'integers')
+            st.assume(z3.ForAll([_v], z3.And(cnt(arr, _v) >= 0, cnt(arr, _v) <= z3.If(z3.And(lo <= _v, _v < hi), s, 0)), patterns=[cnt(arr, _v)]))
+            st.ghost['draws'] = st.ghost.get('draws', 0) + 1
+            return out
         if name == 'normal' and 'size' in kwargs:
             shp = M.shape_arg(ex, st, kwargs['size'], node)
             used('Generator.normal(size=shape) -> array of that shape with arbitrary real entries')
